@@ -29,5 +29,5 @@ def drivers():
         return ["-profile", "c03", "-n", str(n), "-ops", "35", "-seed", str(seed)]
     return [{"driver": "coredrive", "args": args, "replay_args": lambda tier: [], "timeout": 1500}]
 LEVEL_TEXT = 'Machine-checked proof (Coq) over the core model: every delivery in every history happens to a connected, subscribed consumer of an un-paused channel whose unanswered-unexpired count is strictly below a positive RDY; RDY 0 / no RDY / full window / CLS / paused channel make nothing deliverable; CLS zeroes RDY and later RDY is ignored; a paused topic hands nothing to its channels; delivery is enabled again as soon as the guard holds; RDY values outside [0,max] are refused for every spelling of the number. Trace validation of real nsqd runs with RDY up/down/0, CLS, pause/unpause at arbitrary points: the monitor checks the RDY window on every recorded delivery and that nobody ready is left waiting behind a non-empty queue.'
-LEVEL_NOTE = "Output buffering ('only messages already written may still arrive') is modelled as: a frame is sent at delivery; arrival lag is below the harness's settle logic, not proved. The exactness of the server's in-flight counter w.r.t. the entries it owns is validated on every snapshot by the monitor (and proved in proofs/CoreCount.v when CountInv is present)."
+LEVEL_NOTE = "Output buffering ('only messages already written may still arrive') is modelled as: a frame is sent at delivery; arrival lag is below the harness's settle logic, not proved. The exactness of the server's in-flight counter w.r.t. the entries the consumer owns is proved over all histories of the coarse model (C03_counter_exact, C03_true_window; proofs/CoreCountInv.v) and validated on every snapshot by the monitor; below operation granularity the real counter is updated outside the channel's critical sections (known findings K1, K2)."
 DESIGN_REF = "DESIGN.md section 5.0 and C03"
